@@ -451,6 +451,13 @@ def bpe_train(char_list, vocab_size=10000, min_count=1, max_char_code=0):
         else:
             break
 
+    if len(tokens) >= vocab_size:
+        # the vocabulary budget ended the loop: the last learned pair has not been applied yet
+        for i, char_array in enumerate(compressed_chars):
+            compressed_chars[i], pair_counts = contract_and_count_pairs(
+                char_array, pair_to_replace, pair_counts, new_code
+            )
+
     return tokens, code_list, compressed_chars, max_char_code
 
 
